@@ -36,7 +36,7 @@ class CaseResult:
 
 
 def run_case(flex, case, configs, inputs, workdir, rng=None, expect_build=None,
-             stop_on_first=True, keep_logs=False, cpu_s=20):
+             stop_on_first=True, keep_logs=False, cpu_s=20, skip_if=None):
     """Returns CaseResult.  `expect_build(cfg, built)` may claim a flex failure as an
     expected refusal (return True) -- otherwise every flex/cc failure is a problem."""
     res = CaseResult()
@@ -67,6 +67,12 @@ def run_case(flex, case, configs, inputs, workdir, rng=None, expect_build=None,
             if stop_on_first:
                 return res
             continue
+        if skip_if is not None:
+            why = skip_if(cfg, built)
+            if why:
+                res.features["skipped:" + why] = res.features.get("skipped:" + why, 0) + 1
+                shutil.rmtree(d, ignore_errors=True)
+                continue
         if "AddressSanitizer" in built.warnings or "runtime error:" in built.warnings:
             res.problems.append({"kind": "flex-sanitizer", "what": built.warnings[-3000:],
                                  "cfg": cfg, "built": built, "case": c2})
